@@ -135,6 +135,7 @@ def handle (j : Json) : Except String Json := do
         ("bulkDeleteSqlKey", jFields Gen.CacheKeys.bulkDeleteSqlKey), ("translatorKey", jFields Gen.CacheKeys.translatorKey),
         ("resultKey", jFields Gen.CacheKeys.resultKey), ("extractorsKey", jFields Gen.CacheKeys.extractorsKey),
         ("loadStoreRebound", .bool Gen.CacheKeys.loadStoreRebound), ("dbInsertKeyFlat", .bool Gen.CacheKeys.dbInsertKeyFlat),
-        ("entityFlushClearsResults", .bool Gen.CacheKeys.entityFlushClearsResults)])
+        ("entityFlushClearsResults", .bool Gen.CacheKeys.entityFlushClearsResults),
+        ("extractorsRecheck", .bool Gen.CacheKeys.extractorsRecheck)])
   | _ => throw s!"unknown op {op}"
 end PonyVerif.Drive.C05
